@@ -598,6 +598,9 @@ class Gen:
             return SCALAR_GRAFTS_OBJ[g].format(o=o), "d"
         if g in COLL_GRAFTS:
             c, _ = self.coll(self.cur_event)
+            if COLL_GRAFTS[g].startswith("BANK:"):
+                c2, _ = self.coll(self.cur_event)
+                return c[: c.index("(")] + "(" + COLL_GRAFTS[g][5:].format(c=c2) + ").Count()", "d"
             return COLL_GRAFTS[g].format(c=c), "d"
         if g in SEQ_GRAFTS:
             self.graft = None
@@ -861,6 +864,11 @@ COLL_GRAFTS = {
     "coll_div": "({c}/2)",
     "coll_rdiv": "(1000.0/{c})",
     "coll_mod": "({c}%2)",
+    # the bank of a collection call is a string CONSTANT: an expression in its place (even one the translator can render:
+    # a negated number, arithmetic, a count) is a malformed call
+    "bank_negated_number": "BANK:-1",
+    "bank_arithmetic": "BANK:1+1",
+    "bank_count_expression": "BANK:{c}.Count()",
 }
 SEQ_GRAFTS = {
     "seq_arith": "({s}+1)",
